@@ -521,6 +521,17 @@ def _run(ctx, rng, big, events):
         lh = [(r.required, r.factory) for r in comps.registeredHandlers()]
         if len(lh) != len(hand) or any(a[0] != b[0] or a[1] is not b[1] for a, b in zip(lh, hand)):
             ctx.violation('listing-handlers', dict(where, got=repr(lh), expected=repr(hand)))
+        if utils and rng.random() < 0.06:
+            # the repair check itself is interrupted (a registered component cannot be compared at the moment): nothing
+            # may stay switched off afterwards - later registrations still show in the queries (checked by what follows)
+            c_f = rng.choice(sorted(utils.values(), key=lambda cv: repr(cv[0])))[0]
+            c_f.eqfault = True
+            try:
+                comps.rebuildUtilityRegistryFromLocalCache()
+                ctx.count('repair_checks_with_a_comparison_fault[passed]')
+            except ValueError:
+                ctx.count('repair_checks_with_a_comparison_fault[raised]')
+            c_f.eqfault = False
         rb = comps.rebuildUtilityRegistryFromLocalCache()
         ctx.ev()
         if rb['needed_registered'] or rb['needed_subscribed']:
